@@ -211,6 +211,89 @@ fn seeds() -> Vec<(&'static str, Prog)> {
             cons: vec![Cons { name: Some(VarName::Cv("c".into(), vec![Ix::Id("i".into())])), lhs: id("z"), rel: Some((">=".into(), int(1))), iters: vec![it1("i", range(int(0), l7, false))] }],
             consts: vec![("A".into(), a512)], decls: vec![Decl { vars: vec![VarName::Simple("z".into())], ty: DomT::Real(None), iters: vec![] }] }));
     }
+    // indexes computed from DIFFERENCES of range variables / lengths whose intermediate value is negative (`c[i - j + 2]` with
+    // j > i): the difference of two PositiveIntegers is an Integer, not a clamped PositiveInteger - deterministic
+    for off in [2i64, 3] {
+        let window = || bin(Op::Add, bin(Op::Sub, id("i"), id("j")), int(off));
+        let zreal = || Decl { vars: vec![VarName::Simple("z".into())], ty: DomT::Real(None), iters: vec![] };
+        let xs = |n: i64| decl("x", vec![it1("a", range(int(0), int(n), false))], DomT::Real(Some((int(0), int(9)))));
+        // array access in a sum body (the shape of the description)
+        v.push(("index-difference", Prog { sense: "min".into(), obj: E::Scp("sum".into(), vec![it1("j", range(int(0), int(3), false))], Box::new(cv("x", vec![Ix::Id("j".into())]))),
+            cons: vec![Cons { name: None, lhs: E::Scp("sum".into(), vec![it1("j", range(int(0), int(3), false))], Box::new(bin(Op::Mul, E::Acc("c".into(), vec![window()]), cv("x", vec![Ix::Id("j".into())])))),
+                rel: Some(("<=".into(), int(100))), iters: vec![it1("i", range(int(0), int(off), false))] }],
+            consts: vec![("c".into(), data(&[10, 20, 30, 40, 50, 60]))], decls: vec![xs(3)] }));
+        // compound index and constraint name
+        v.push(("index-difference", Prog { sense: "min".into(), obj: int(1),
+            cons: vec![Cons { name: Some(VarName::Cv("w".into(), vec![Ix::Ex(window())])), lhs: cv("x", vec![Ix::Ex(window())]), rel: Some((">=".into(), bin(Op::Sub, id("i"), id("j")))),
+                iters: vec![it1("i", range(int(0), int(3), false)), it1("j", range(int(0), int(3), false))] }],
+            consts: vec![], decls: vec![xs(off + 3)] }));
+        // the difference as a coefficient and as a range end
+        v.push(("index-difference", Prog { sense: "min".into(), obj: int(1),
+            cons: vec![Cons { name: None, lhs: bin(Op::Add, bin(Op::Mul, bin(Op::Sub, id("i"), id("j")), id("z")), E::Scp("sum".into(), vec![it1("k", range(int(0), window(), false))], Box::new(cv("x", vec![Ix::Id("k".into())])))),
+                rel: Some(("<=".into(), int(7))), iters: vec![it1("i", range(int(0), int(2), true)), it1("j", range(int(0), int(2), true))] }],
+            consts: vec![], decls: vec![xs(off + 3), zreal()] }));
+        // lengths: len(A) - len(B) with the shorter array first, enumerate indexes
+        v.push(("index-difference", Prog { sense: "min".into(), obj: int(1),
+            cons: vec![Cons { name: None, lhs: bin(Op::Mul, E::Acc("B".into(), vec![bin(Op::Add, bin(Op::Sub, call("len", vec![id("A")]), call("len", vec![id("B")])), int(off))]), id("z")), rel: Some((">=".into(), bin(Op::Sub, call("len", vec![id("A")]), call("len", vec![id("B")])))), iters: vec![] },
+                Cons { name: None, lhs: bin(Op::Mul, E::Acc("B".into(), vec![bin(Op::Add, bin(Op::Sub, id("p"), id("q")), int(off))]), id("z")), rel: Some((">=".into(), int(0))),
+                    iters: vec![itn(&["_", "p"], call("enumerate", vec![id("A")])), it1("q", range(int(1), int(3), false))] }],
+            consts: vec![("A".into(), data(&[1, 2, 3, 4])), ("B".into(), data(&[4, 5, 6, 7, 8, 9]))], decls: vec![zreal()] }));
+        // products of differences
+        v.push(("index-difference", Prog { sense: "max".into(), obj: id("z"),
+            cons: vec![Cons { name: None, lhs: bin(Op::Mul, bin(Op::Mul, bin(Op::Sub, id("i"), id("j")), bin(Op::Sub, id("j"), id("i"))), id("z")), rel: Some(("<=".into(), bin(Op::Add, bin(Op::Sub, id("i"), id("j")), int(off)))),
+                iters: vec![it1("i", range(int(0), int(3), false)), it1("j", range(int(1), int(3), true))] }],
+            consts: vec![], decls: vec![zreal()] }));
+    }
+    // compile-time arithmetic whose value must be the mathematical one: Integer (op) Number for the non-commutative operators
+    // with asymmetric operands, and 0 / 0 in every spelling (a division by zero, never a NaN coefficient) - deterministic
+    {
+        let zreal = || Decl { vars: vec![VarName::Simple("z".into())], ty: DomT::Real(None), iters: vec![] };
+        let ge = |lhs: E, rhs: E, iters: Vec<It>| Cons { name: None, lhs, rel: Some((">=".into(), rhs)), iters };
+        for (tag, consts, cons) in [
+            ("mixed-arithmetic", vec![("c", bin(Op::Sub, int(1), num(0.25))), ("d", bin(Op::Div, int(3), num(1.5))), ("e", bin(Op::Sub, num(0.25), int(1))), ("f", bin(Op::Div, num(1.5), int(3)))],
+                vec![ge(bin(Op::Mul, id("c"), id("z")), id("d"), vec![]), ge(bin(Op::Mul, id("e"), id("z")), id("f"), vec![])]),
+            ("mixed-arithmetic", vec![("A", data(&[1, 2, 5])), ("h", num(0.5))],
+                vec![ge(bin(Op::Mul, bin(Op::Sub, id("a"), id("h")), id("z")), bin(Op::Div, id("a"), id("h")), vec![it1("a", id("A"))]),
+                     ge(bin(Op::Mul, bin(Op::Sub, id("h"), id("a")), id("z")), bin(Op::Div, id("h"), id("a")), vec![it1("a", id("A"))])]),
+            ("mixed-arithmetic", vec![("A", data(&[4, 7])), ("F", E::Lit(V::Arr(vec![V::Num(0.25), V::Num(2.5)])))],
+                vec![ge(E::Scp("sum".into(), vec![it1("a", id("A")), it1("f", id("F"))], Box::new(bin(Op::Mul, bin(Op::Sub, id("a"), id("f")), id("z")))), E::Scp("sum".into(), vec![it1("a", id("A")), it1("f", id("F"))], Box::new(bin(Op::Div, id("a"), id("f")))), vec![]),
+                     ge(bin(Op::Mul, bin(Op::Sub, bin(Op::Sub, int(0), int(3)), num(1.5)), id("z")), bin(Op::Div, bin(Op::Sub, int(0), int(3)), num(1.5)), vec![])]),
+            ("zero-over-zero", vec![("D", E::Lit(V::Arr(vec![]))), ("r", bin(Op::Div, call("len", vec![id("D")]), call("len", vec![id("D")])))], vec![ge(id("z"), id("r"), vec![])]),
+            ("zero-over-zero", vec![("r", bin(Op::Div, int(0), int(0)))], vec![ge(id("z"), id("r"), vec![])]),
+            ("zero-over-zero", vec![("r", bin(Op::Div, num(0.0), int(0)))], vec![ge(id("z"), id("r"), vec![])]),
+            ("zero-over-zero", vec![("r", bin(Op::Div, int(0), num(0.0)))], vec![ge(id("z"), id("r"), vec![])]),
+            ("zero-over-zero", vec![("r", bin(Op::Div, bin(Op::Sub, int(1), int(1)), bin(Op::Sub, num(2.0), num(2.0))))], vec![ge(id("z"), id("r"), vec![])]),
+            ("zero-over-zero", vec![("U", data(&[3, 0])), ("K", data(&[5, 0]))], vec![ge(id("z"), bin(Op::Div, E::Acc("U".into(), vec![id("i")]), E::Acc("K".into(), vec![id("i")])), vec![it1("i", range(int(0), int(2), false))])]),
+            ("zero-over-zero", vec![("U", data(&[3, 0])), ("K", data(&[5, 0]))], vec![ge(bin(Op::Mul, bin(Op::Div, E::Acc("U".into(), vec![int(1)]), E::Acc("K".into(), vec![int(1)])), id("z")), int(1), vec![])]),
+            ("zero-over-zero", vec![("b", E::Lit(V::Bool(false)))], vec![ge(id("z"), bin(Op::Div, int(0), id("b")), vec![])]),
+            ("zero-over-zero", vec![("D", E::Lit(V::Arr(vec![])))], vec![ge(id("z"), bin(Op::Div, int(1), call("len", vec![id("D")])), vec![])]),
+        ] {
+            v.push((tag, Prog { sense: "min".into(), obj: id("z"), cons, consts: consts.into_iter().map(|(n, e)| (n.to_string(), e)).collect(), decls: vec![zreal()] }));
+        }
+    }
+    // graphs in which a node occurs only as an edge DESTINATION: nodes(G) / V(G) are the declared nodes, in declaration order
+    for (k, g) in [
+        vec![("A", vec![("B", None), ("C", None)]), ("B", vec![("C", Some(2.0))])],
+        vec![("S", vec![("n10", None), ("n2", Some(1.5))])],
+        vec![("B", vec![("A", None)]), ("A", vec![("Z", None), ("B", None)])],
+        vec![("P", vec![("Q", None)]), ("R", vec![("Q", None), ("T", Some(3.0))]), ("Q", vec![])],
+    ].into_iter().enumerate() {
+        let nodes: Vec<GNode> = g.iter().map(|(n, es)| GNode { name: n.to_string(), edges: es.iter().map(|(t, w)| GEdge { from: n.to_string(), to: t.to_string(), w: *w }).collect() }).collect();
+        let gl = E::Lit(V::Graph(nodes));
+        let _ = k;
+        let zreal = Decl { vars: vec![VarName::Simple("z".into())], ty: DomT::Real(None), iters: vec![] };
+        // one variable per declared node, one per edge destination (so that destination-only nodes have a variable too)
+        let xdecl = Decl { vars: vec![VarName::Cv("x".into(), vec![Ix::Id("v".into())])], ty: DomT::Boolean, iters: vec![it1("v", call("nodes", vec![id("G")]))] };
+        let ydecl = Decl { vars: vec![VarName::Cv("x".into(), vec![Ix::Id("u".into())])], ty: DomT::Boolean, iters: vec![itn(&["_", "u"], call("edges", vec![id("G")]))] };
+        v.push(("destination-only-node", Prog { sense: "min".into(), obj: E::Scp("sum".into(), vec![it1("v", call("nodes", vec![id("G")]))], Box::new(cv("x", vec![Ix::Id("v".into())]))),
+            cons: vec![Cons { name: Some(VarName::Cv("cover".into(), vec![Ix::Id("v".into())])), lhs: bin(Op::Add, cv("x", vec![Ix::Id("v".into())]), E::Scp("sum".into(), vec![itn(&["_", "u"], call("neigh_edges", vec![id("v")]))], Box::new(cv("x", vec![Ix::Id("u".into())])))),
+                rel: Some((">=".into(), int(1))), iters: vec![it1("v", call("V", vec![id("G")]))] }],
+            consts: vec![("G".into(), gl.clone())], decls: vec![xdecl.clone(), ydecl.clone()] }));
+        v.push(("destination-only-node", Prog { sense: "min".into(), obj: int(1),
+            cons: vec![Cons { name: Some(VarName::Cv("n".into(), vec![Ix::Id("i".into()), Ix::Id("v".into())])), lhs: bin(Op::Mul, id("i"), id("z")), rel: Some((">=".into(), call("len", vec![call("nodes", vec![id("G")])]))), iters: vec![itn(&["v", "i"], call("enumerate", vec![call("nodes", vec![id("G")])]))] },
+                Cons { name: None, lhs: bin(Op::Mul, id("w"), cv("x", vec![Ix::Id("b".into())])), rel: Some(("<=".into(), id("z"))), iters: vec![itn(&["a", "b", "w"], call("edges", vec![id("G")]))] }],
+            consts: vec![("G".into(), gl)], decls: vec![zreal, xdecl, ydecl] }));
+    }
     // string / float / negative indexes
     v.push(("odd-indexes", Prog { sense: "min".into(), obj: int(1),
         cons: vec![Cons { name: None, lhs: bin(Op::Add, cv("x", vec![Ix::Id("s".into())]), cv("y", vec![Ix::Ex(bin(Op::Sub, id("i"), int(2)))])), rel: Some(("<=".into(), int(1))),
